@@ -205,6 +205,10 @@ class World:
         armed = False
         try:
             if threading.current_thread() is threading.main_thread():
+                # (an outer watchdog - the per-item budget of report.pmap - keeps running: its remaining time is put
+                # back when this settle is over)
+                outer_left, _ = signal.getitimer(signal.ITIMER_REAL)
+                t_armed = _time.monotonic()
                 old = signal.signal(signal.SIGALRM, _alarm)
                 signal.setitimer(signal.ITIMER_REAL, WALL_LIMIT)
                 armed = True
@@ -224,6 +228,8 @@ class World:
             if armed:
                 signal.setitimer(signal.ITIMER_REAL, 0)
                 signal.signal(signal.SIGALRM, old)
+                if outer_left > 0:
+                    signal.setitimer(signal.ITIMER_REAL, max(outer_left - (_time.monotonic() - t_armed), 0.01))
         return self
 
     def run(self, coro, advance=None):
